@@ -328,7 +328,7 @@ func Mutate(t *rapid.T, root *JV) Mutation {
 	case "hostile-number":
 		n.replace(JRaw(pick(t, "mut/hn", hostileNumbers)))
 	case "unknown-field":
-		n.v.Obj = append(n.v.Obj, JKV{pick(t, "mut/uf", []string{"unknown", "extra_field", "@type2", "Orbiter", ""}), JRaw(pick(t, "mut/ufv", wrongTypeValues))})
+		n.v.Obj = append(n.v.Obj, JKV{pick(t, "mut/uf", []string{"unknown", "extra_field", "@type2", "Orbiter", "", "a\"b", "x\\y", "\"", "q\" in \"z"}), JRaw(pick(t, "mut/ufv", wrongTypeValues))})
 	case "dup-key":
 		if len(n.v.Obj) == 0 {
 			n.v.Obj = append(n.v.Obj, JKV{"a", JRaw("1")}, JKV{"a", JRaw("1")})
@@ -413,4 +413,48 @@ func Mutate(t *rapid.T, root *JV) Mutation {
 		n.replace(JRaw(`{"orbiter":` + nestedObjects(d) + `}`))
 	}
 	return m
+}
+
+// MutateTargeted applies one of the mutants property C15 names explicitly: an unknown field in
+// some object, a second root key, or an @type replaced by an unregistered / other-interface URL.
+func MutateTargeted(t *rapid.T, root *JV) Mutation {
+	var nodes []node
+	collect(root, "", nil, 0, "", &nodes)
+	switch Pick(t, "tm/kind", []string{"unknown-field", "extra-root-key", "type-url"}) {
+	case "unknown-field":
+		var objs []node
+		for _, n := range nodes {
+			if n.v.Kind == jObj && n.parent != nil {
+				objs = append(objs, n)
+			}
+		}
+		n := objs[uniform(t, "tm/obj", len(objs))]
+		n.v.Obj = append(n.v.Obj, JKV{Pick(t, "tm/uf", []string{"unknown", "extra_field", "memo", "Recipient", "a\"b", "x\\y", "q\" in \"z"}), JRaw(Pick(t, "tm/ufv", []string{`1`, `"x"`, `null`, `{}`, `[]`}))})
+		return Mutation{Kind: "unknown-field", Path: n.path}
+	case "extra-root-key":
+		kv := JKV{Pick(t, "tm/rk", []string{"other", "forward", "wasm", "orbiter2", "Orbiter"}), JRaw(Pick(t, "tm/rkv", []string{`1`, `{}`, `null`, `"x"`}))}
+		if Chance(t, "tm/front", 50) {
+			root.Obj = append([]JKV{kv}, root.Obj...)
+		} else {
+			root.Obj = append(root.Obj, kv)
+		}
+		return Mutation{Kind: "extra-root-key", Path: ""}
+	default:
+		var urls []node
+		for _, n := range nodes {
+			if n.key == "@type" {
+				urls = append(urls, n)
+			}
+		}
+		n := urls[uniform(t, "tm/url", len(urls))]
+		inAction := len(n.path) > 20 && n.path[:20] == "/orbiter/pre_actions"
+		var options []string
+		if inAction {
+			options = []string{urlCCTP, urlHyp, urlInternal, "/does.not.Exist", "/cosmos.bank.v1beta1.MsgSend", "/noble.orbiter.core.v1.Payload"}
+		} else {
+			options = []string{urlFee, "/does.not.Exist", "/cosmos.bank.v1beta1.MsgSend", "/noble.orbiter.core.v1.Forwarding"}
+		}
+		n.replace(JStr(Pick(t, "tm/newurl", options)))
+		return Mutation{Kind: "type-url", Path: n.path}
+	}
 }
